@@ -554,6 +554,7 @@ def eval_dynamics(ctx, specs, props, with_model=True, c17=False):
                 ctx.violation(case, {'why': msg, **det, 'property': pid})
         if with_model and ctx.driver.available:
             cm, st, recs = sim.parse_pipe(answers[k], spec, tr)
+            tr['gears_in_model'] = True
             k += 1
             diff = cm or sim.compare_hist(tr, st, recs)
             if diff is not None:
